@@ -192,6 +192,21 @@ func genFrame(g *genCtx) {
 			emit(c)
 		}
 	}
+	// (ii-b) a slow peer: whole streams dripping in pieces of one, two or three octets (hundreds of arrivals per frame)
+	for _, cd := range codecs {
+		for _, piece := range []int{1, 2, 3} {
+			for _, bl := range []int{97, 101, 150, 301, 700} {
+				f1, f2 := mkFrame(randBytes(r, bl)), mkFrame(randBytes(r, 4+r.Intn(20)))
+				total := len(f1) + len(f2)
+				var cuts []int
+				for left := total; left > 0; left -= piece {
+					cuts = append(cuts, minInt(piece, left))
+				}
+				emit(frameCase(cd, [][]byte{f1, f2}, nil, cuts, "eof", true, false))
+				emit(frameCase(cd, [][]byte{f1, f2}, nil, cuts, "eof", false, false))
+			}
+		}
+	}
 	// (iii) random frame lists, random multi-cut schedules, random interleavings
 	nr := 600
 	maxBody := 300
